@@ -29,7 +29,16 @@ head = ("%d changes written by sub-agents that saw only the property text (and, 
         "validate after learn, a refused call before valid ones, one tensor object passed several times. For call\n"
         "history the tie has driver commands 10-12 (two learns, two learns with validation, a script of learn /\n"
         "validate / predict / backward / predict_batch calls on ONE network object). They are now\n"
-        "generated deterministically in the quick tier. Two round-1 patches no longer apply because the code they\n"
+        "generated deterministically in the quick tier. Rounds 9-12 added: every ENTRY POINT on structured networks\n"
+        "(predict / predict_batch / gradients, not only forward) and DIRECT WRITES of the public maps `connect` /\n"
+        "`loopbacks`; RECONFIGURATION between calls (set_activation, set_optimizer, set_objective, set_accumulation,\n"
+        "an optimizer attached again); parameters in a SPECIAL RELATION (stride == kernel, 1x1 kernels with padding\n"
+        "and stride, overhanging kernels, nested connections and loops); quantities BEYOND THE MODEL'S UNARY NUMBERS\n"
+        "(batch size usize::MAX - by theorem -, reshape dimensions near 2^64 - by an implementation-only falsifier);\n"
+        "values that are NEARLY EQUAL (the crate's own tolerant `==` on tensor data is a trap for fast paths: inputs,\n"
+        "loop iterates and predictions less than 1e-5 apart); exactly-zero gradients, whole channels of zeros, zero\n"
+        "dimensions; runs that DIVERGE (overflowing steps, NaN losses); and again sizes (2^15-element matrices, 4160\n"
+        "evaluation samples, 96-class soft-max, 2^16-element flat sizes). Two round-1 patches no longer apply because the code they\n"
         "patch was replaced by a fix commit. `tools/mutants_all.sh` re-applies every stored change and expects\n"
         "exit 1 from the property's check.\n\n"
         "| change | property | caught by | applies to HEAD |\n|---|---|---|---|\n") % (n, rounds, missed, late - missed)
